@@ -138,6 +138,8 @@ struct ArenaCtl {
     req_count: u32,
     refusals_in_call: u32,
     runaway: bool,
+    /// key used instead of the arena id when deriving Mix residues (lets twins get identical placement)
+    pkey: u32,
 }
 
 const CTL0: ArenaCtl = ArenaCtl {
@@ -146,6 +148,7 @@ const CTL0: ArenaCtl = ArenaCtl {
     req_count: 0,
     refusals_in_call: 0,
     runaway: false,
+    pkey: 0,
 };
 
 const EV0: Event = Event { kind: EvKind::Alloc, arena: 0, by: 0, addr: 0, size: 0, align: 0, seq: 0 };
@@ -325,6 +328,7 @@ unsafe fn attributed_alloc(cur: u32, layout: Layout) -> *mut u8 {
         }
     }
     let placement = ctl.placement;
+    let pkey = if ctl.pkey != 0 { ctl.pkey } else { cur };
     if runaway_now {
         st.push_ev(Event { kind: EvKind::Runaway, arena: cur, by: cur, addr: 0, size, align, seq: k });
     }
@@ -344,7 +348,7 @@ unsafe fn attributed_alloc(cur: u32, layout: Layout) -> *mut u8 {
         Placement::Min => align % w,
         Placement::Mix => {
             let slots = (w / align) as u64;
-            ((mix64(seed ^ ((cur as u64) << 40) ^ (k as u64).wrapping_mul(0x9e3779b97f4a7c15)) % slots) as usize) * align
+            ((mix64(seed ^ ((pkey as u64) << 40) ^ (k as u64).wrapping_mul(0x9e3779b97f4a7c15)) % slots) as usize) * align
         }
     };
     let raw_size = size + 2 * GUARD + 2 * w;
@@ -466,6 +470,9 @@ pub fn plan(arena: u32) -> Plan {
 pub fn set_placement(arena: u32, p: Placement) {
     lock().arenas[arena as usize].placement = p;
 }
+pub fn set_placement_key(arena: u32, key: u32) {
+    lock().arenas[arena as usize].pkey = key;
+}
 pub fn req_count(arena: u32) -> u32 {
     lock().arenas[arena as usize].req_count
 }
@@ -497,6 +504,35 @@ pub fn take_events(out: &mut Vec<Event>) {
             out.push(st.events[i]);
         }
         st.n_events = 0;
+        return;
+    }
+}
+
+/// Drain only the events that concern `arena` (used when several threads drive their own arenas).
+pub fn take_events_for(arena: u32, out: &mut Vec<Event>) {
+    out.clear();
+    loop {
+        let need = lock().n_events;
+        if out.capacity() < need {
+            out.reserve(need + 64);
+            continue;
+        }
+        let mut st = lock();
+        if st.n_events > out.capacity() {
+            continue;
+        }
+        let n = st.n_events;
+        let mut w = 0;
+        for i in 0..n {
+            let ev = st.events[i];
+            if ev.arena == arena || ev.by == arena {
+                out.push(ev);
+            } else {
+                st.events[w] = ev;
+                w += 1;
+            }
+        }
+        st.n_events = w;
         return;
     }
 }
